@@ -5,7 +5,8 @@ PATCH=$1; TIER=$2; shift 2
 cd /verif || exit 2
 if [ -n "$(git -C /repo status --porcelain --untracked-files=no)" ]; then echo "/repo is not clean"; exit 2; fi
 git -C /repo apply "$PATCH" || { echo "patch does not apply"; exit 2; }
-trap 'git -C /repo checkout -- . ' EXIT INT TERM
+export VERIF_OUT_DIR=$(mktemp -d /tmp/try_seed_out.XXXXXX)
+trap 'git -C /repo checkout -- . ; rm -rf "$VERIF_OUT_DIR"' EXIT INT TERM
 for P in "$@"; do
   START=$(date +%s)
   OUT=$(./check $P --tier $TIER 2>&1); RC=$?
